@@ -428,6 +428,8 @@ func scan(src []byte, ncalls, resetAt int) string {
 		if c, ok := t.Pos.Context.(*scanCtx); !ok || c != ctx {
 			s = "CTXLOST"
 		}
+		// a caller that appends to a literal (say, to build a qualified name) must not thereby write into the input
+		_ = append(t.Lit, 0x7f)
 		out = append(out, s)
 	}
 	res := strings.Join(out, " ")
